@@ -554,6 +554,10 @@ class Renderer:
             if not self.logset:
                 return ""
             names = sorted(self.nonlogset) if self.use_allbut else sorted(self.logset)
+            if groups in ("part0", "part1"):
+                # the log list split over two blocks of the same kind (they accumulate)
+                h = (len(names) + 1) // 2
+                names = names[:h] if groups == "part0" else names[h:]
             # declared order is irrelevant for the log list: written in reverse alphabetical order
             body = ("!list(`%s)" % ("nl" if self.use_allbut else "lg")) if self.use_list else \
                 [[", ", "; "], ["\n    ", " "]][sw["sep"]][sw["sep2"]].join(reversed(names))
@@ -583,7 +587,10 @@ class Renderer:
         if sw["order"]:
             first, second = [], []
             for kind, groups in blocks:
-                if groups and len(groups) > 1 and kind not in ("log", "subs"):
+                if kind == "log" and self.logset and not self.use_list and len(self.nonlogset if self.use_allbut else self.logset) >= 2:
+                    first.append((kind, "part0"))
+                    second.append((kind, "part1"))
+                elif groups and len(groups) > 1 and kind not in ("log", "subs"):
                     h = (len(groups) + 1) // 2
                     first.append((kind, groups[:h]))
                     second.append((kind, groups[h:]))
